@@ -24,6 +24,8 @@ def expected(item):
     """(transmissions, attempt succeeds) for one scripted error run."""
     if not F.is_post(item['kind']):
         return 1, False     # GET requests are not ACME POSTs: never retried, never a success
+    if item.get('trailing'):
+        return 1, False     # the body as a whole is not a problem document: nothing says the error is recoverable
     if item['family'] == 'acme':
         # the run may mix types: it goes on while the answers are recoverable errors, up to 10 transmissions in all
         seq = item.get('types') or [item['type']] * item['r']
@@ -75,6 +77,9 @@ def run_batch(batch):
         act = {'action': it['action'], 'status': it.get('status', 400)}
         if it.get('headers'):
             act['headers'] = it['headers']
+        for extra_key in ('subproblems', 'trailing'):
+            if it.get(extra_key):
+                act[extra_key] = it[extra_key]
         if it.get('types'):
             # one rule per transmission: the j-th transmission of the request is answered with the j-th type
             for j, t in enumerate(it['types']):
@@ -243,6 +248,23 @@ def gen(tier):
                 items.append({'family': 'acme', 'action': 'acme_error', 'type': t, 'status': r.choice([400, 429, 503]), 'kind': kind, 'nth': nth,
                               'r': r.choice([1, 2]) if ra != '1' else 1, 'headers': {'Retry-After': ra},
                               'label': 'acme:%s+retry-after=%s' % ((t if t and not t.startswith('urn:') else ('unknownUrn' if t else 'noType')), ra[:3])})
+    # compound errors: whatever their sub-problems say, the type is not one of the recoverable ones
+    def sub(t, ident):
+        return {'type': 'urn:ietf:params:acme:error:' + t, 'detail': 'sub-problem', 'identifier': {'type': 'dns', 'value': ident}}
+    for (kind, nth) in (POST_POS if tier != 'quick' else [('newOrder', 0), ('finalize', 0), ('authzPoll', 0)]):
+        for nm, sp in (('all-recoverable', [sub('dns', 'a.example.org'), sub('dns', 'b.example.org')]), ('one-recoverable', [sub('serverInternal', 'a.example.org')]),
+                       ('mixed', [sub('connection', 'a.example.org'), sub('caa', 'b.example.org')]), ('empty', [])):
+            items.append({'family': 'acme', 'action': 'acme_error', 'type': 'compound', 'subproblems': sp, 'kind': kind, 'nth': nth, 'r': r.choice([1, 2]),
+                          'label': 'acme:compound/' + nm})
+    # a recoverable problem document followed by something else (a front end adding its own page, two documents glued together)
+    for (kind, nth) in (POST_POS if tier != 'quick' else [('newOrder', 0), ('challenge', 0), ('finalize', 0)]):
+        for t in ('serverInternal', 'badNonce', 'rateLimited'):
+            for nm, tr in (('html', '\n<html><body>503 Service Unavailable</body></html>\n'), ('second-document', '{"type":"urn:ietf:params:acme:error:serverInternal","detail":"again"}'),
+                           ('junk', ' ]')):
+                if tier == 'quick' and r.random() < 0.4:
+                    continue
+                items.append({'family': 'acme', 'action': 'acme_error', 'type': t, 'status': r.choice([500, 503, 400]), 'trailing': tr, 'kind': kind, 'nth': nth, 'r': r.choice([1, 2]),
+                              'label': 'acme:%s+trailing-%s' % (t, nm)})
     # GET position: only "never success, bounded"
     for t in ['badNonce', 'serverInternal', 'unauthorized']:
         items.append({'family': 'acme', 'action': 'acme_error', 'type': t, 'kind': 'directory', 'nth': 0, 'r': 3, 'label': 'acme:%s' % t, 'get': True})
@@ -310,7 +332,7 @@ def run(tier):
                 chk.violation('C08|%s|%s' % (cls, c.get('label') or 'stop-at-awaited-status'), what, res, res.get('replay_dir'))
     chk.exhaustive = (tier == 'thorough')
     chk.rule = ('error runs: POST position x (24 ACME types + unknown URN + absent type) x run length r%s, plus non-JSON / empty bodies '
-                'with 7 status codes, runs mixing recoverable types (alternating, halves, random, one non-recoverable inside), error answers carrying Retry-After, GET position, newAccount position; polling: 5 never-terminating objects and k pending answers before '
+                'with 7 status codes, runs mixing recoverable types (alternating, halves, random, one non-recoverable inside), error answers carrying Retry-After, compound errors with sub-problems, problem documents followed by other data, GET position, newAccount position; polling: 5 never-terminating objects and k pending answers before '
                 'the awaited status; distinct = (position, error, r) whose fault fired and whose attempt ended'
                 % (' in 1..12 over all 8 POST positions' if tier == 'thorough' else ' in {1,9,10,12} on 3 positions + sampled others'))
     chk.assumptions = ['a logical request = same kind/url/payload until a 2xx answer, as tracked by the mock CA',
